@@ -214,6 +214,7 @@ class Continuum:
         """
         continuum = Continuum(self.uri)
         continuum._annotations = deepcopy(self._annotations)
+        continuum._categories = SortedSet(self._categories)
         continuum.bound_inf, continuum.bound_sup = self.bound_inf, self.bound_sup
         continuum.best_window_size = self.best_window_size
         return continuum
